@@ -13,7 +13,7 @@ for id in $ids; do
   # the same change re-made on code that a later repair rewrote
   for pp in seeded/$id/patch_ported_to_repaired_*.diff; do [ -f "$pp" ] && patch=$V/$pp; done
   if ! git -C $R apply --check $patch 2>/dev/null; then
-    if git -C $R apply --3way $patch >/dev/null 2>&1; then git -C $R reset -q; else
+    if git -C $R apply --3way $patch >/dev/null 2>&1 && ! git -C $R status --short | grep -q "^U\|^.U"; then git -C $R reset -q; else git -C $R reset -q --hard HEAD;
       git -C $R checkout -q -- . ; res="patch no longer applies to the repaired tree (the code it changes was rewritten by a later fix)"; 
       python3 - "$id" "$res" <<'PY'
 import json,sys,os
@@ -22,7 +22,7 @@ PY
       echo "$id: $res"; continue; fi
   else git -C $R apply $patch; fi
   VERIF_EVIDENCE_DIR=$V/build/seeded_evidence ./check $P --tier quick > build/rerun_$id.out 2>/dev/null; rc=$?
-  git -C $R checkout -q -- .
+  git -C $R reset -q --hard HEAD
   v=$(grep '^VIOLATION' build/rerun_$id.out | head -1)
   first=$(grep -E '^\s+(PROP|PANIC|CORR|NO-LONGER)' build/rerun_$id.out | head -1 | awk '{print $1" "$3}' | tr -d ':')
   if [ $rc -eq 0 ]; then res="MISSED by ./check $P (exit 0)"; 
